@@ -671,6 +671,98 @@ func (g *pfGen) pfqMutate(ps []*pfProp) []*pfProp {
 	return g.validSchema()
 }
 
+// pfqArgsAll: an arguments object valid for the schema with a (non-null) value for EVERY leaf property, so that a
+// formerly annotated argument is always supplied.
+func (g *pfGen) pfqArgsAll(ps []*pfProp) *pfJ {
+	o := &pfJ{kind: 'o'}
+	for _, p := range ps {
+		if p.ty == "object" && len(p.children) > 0 {
+			o.fields = append(o.fields, pfField{p.name, g.pfqArgsAll(p.children)})
+			continue
+		}
+		if p.ty == "object" {
+			continue
+		}
+		o.fields = append(o.fields, pfField{p.name, g.value(p.ty, true)})
+	}
+	return o
+}
+
+func pfqClone(ps []*pfProp) []*pfProp {
+	var out []*pfProp
+	for _, p := range ps {
+		q := *p
+		q.children = pfqClone(p.children)
+		out = append(out, &q)
+	}
+	return out
+}
+
+func pfqLeaves(ps []*pfProp) []*pfProp {
+	var out []*pfProp
+	for _, p := range ps {
+		if p.ty != "object" {
+			out = append(out, p)
+		}
+		out = append(out, pfqLeaves(p.children)...)
+	}
+	return out
+}
+
+// pfqRevise: a new revision of a tool's schema - same properties, the annotations changed in one named way:
+// "strip" no x-mcp-header annotation at all, "rename" every annotated leaf gets another header name, "move" the
+// annotation of one leaf moves to a leaf that had none.  nil when the schema does not allow it.
+func (g *pfGen) pfqRevise(ps []*pfProp, how string) []*pfProp {
+	out := pfqClone(ps)
+	leaves := pfqLeaves(out)
+	var ann, plain []*pfProp
+	used := map[string]bool{}
+	for _, p := range leaves {
+		if p.xh == 's' {
+			ann = append(ann, p)
+			used[strings.ToLower(p.xhStr)] = true
+		} else {
+			plain = append(plain, p)
+		}
+	}
+	if len(ann) == 0 {
+		return nil
+	}
+	fresh := func() string {
+		for _, h := range g.rng.Perm(len(pfHeaderNames)) {
+			if !used[strings.ToLower(pfHeaderNames[h])] {
+				used[strings.ToLower(pfHeaderNames[h])] = true
+				return pfHeaderNames[h]
+			}
+		}
+		return ""
+	}
+	switch how {
+	case "strip":
+		for _, p := range ann {
+			p.xh, p.xhStr = '-', ""
+		}
+	case "rename":
+		for _, p := range ann {
+			if h := fresh(); h != "" {
+				p.xhStr = h
+			}
+		}
+	case "move":
+		if len(plain) == 0 {
+			return nil
+		}
+		from, to := ann[g.rng.Intn(len(ann))], plain[g.rng.Intn(len(plain))]
+		to.xh, to.xhStr = 's', from.xhStr
+		from.xh, from.xhStr = '-', ""
+	}
+	if pfPropsTok(out) == pfPropsTok(ps) ||
+		validateParamHeaderAnnotations(&Tool{Name: "t", InputSchema: json.RawMessage(pfSchemaJSON(out))}) != nil {
+		return nil
+	}
+	return out
+}
+
 // pfqGenerate: the operation lines of case (seed, idx).
 func (g *pfGen) pfqGenerate() []string {
 	pfqNames := pfqNames
@@ -769,6 +861,55 @@ func (g *pfGen) pfqGenerate() []string {
 			add("look t" + hxs(name))
 			add("call t" + hxs(name) + " " + pfParamsTok(params))
 			everListed = append(everListed, name)
+		case r < 74:
+			// a registered, annotated tool gets a new revision - no annotation at all / other header names / the annotation
+			// moved to another argument / removed and added again (same or revised schema) -, the client lists everything
+			// again and calls the tool with a value for every argument (so also for the formerly annotated ones)
+			var cands []string
+			for _, n := range names() {
+				for _, p := range pfqLeaves(tools[n].schema) {
+					if p.xh == 's' {
+						cands = append(cands, n)
+						break
+					}
+				}
+			}
+			if len(cands) == 0 {
+				add(fmt.Sprintf("adv %d", advs[g.rng.Intn(len(advs))]))
+				break
+			}
+			n := cands[g.rng.Intn(len(cands))]
+			old := tools[n].schema
+			how := g.pick([]string{"strip", "strip", "rename", "move", "readd", "readd-strip"})
+			rev := old
+			switch how {
+			case "readd":
+				delete(tools, n)
+				add("del t" + hxs(n))
+			case "readd-strip":
+				delete(tools, n)
+				add("del t" + hxs(n))
+				rev = g.pfqRevise(old, "strip")
+			default:
+				rev = g.pfqRevise(old, how)
+			}
+			if rev == nil {
+				rev = g.pfqMutate(old)
+			}
+			setTool(n, rev)
+			if g.chance(50) {
+				add(fmt.Sprintf("adv %d", []int{5, 10, 11, 50}[g.rng.Intn(4)]))
+			}
+			listAll()
+			for k := 0; k < 2; k++ {
+				nm, _ := json.Marshal(n)
+				params := json.RawMessage(`{"name":` + string(nm) + `,"arguments":` + g.pfqArgsAll(rev).json() + `}`)
+				if _, ok := extractName("tools/call", params); !ok {
+					continue
+				}
+				add("look t" + hxs(n))
+				add("call t" + hxs(n) + " " + pfParamsTok(params))
+			}
 		case r < 82:
 			add(fmt.Sprintf("adv %d", advs[g.rng.Intn(len(advs))]))
 		case r < 92:
